@@ -156,7 +156,7 @@ func init() {
 			r := c.R.Fork()
 			kind := uint64(r.Intn(2))
 			o := genWOpts(r)
-			alpha := genBlocks(r, 2+r.Intn(5), genOpts{identity: true, maxData: 0, big: c.Thorough && r.Chance(10)})
+			alpha := genBlocks(r, 2+r.Intn(5), genOpts{identity: true, maxData: 0}) // sizes up to the 2^14 varint boundary; 2^21 is C01/C05 territory (the extracted model is too slow on MiB-sized lists)
 			roots := genRoots(r, alpha, true)
 			var all []Blk
 			var segs []crSeg
